@@ -208,6 +208,18 @@ fn bind(dom: &XmlDocument, tree: &J) -> (HashMap<usize, i64>, Option<String>) {
     (ids, mismatch)
 }
 
+/// the raw view (no merged text nodes): used where it coincides with the merged view
+pub fn load_doc_raw(text: &str, tree: &J) -> Result<Doc, String> {
+    let dom = match guarded(|| XmlDocument::from_raw(text).map(|(rest, d)| (rest.to_string(), d)).map_err(|e| e.to_string())) {
+        Ok(Ok((rest, d))) if rest.is_empty() => d,
+        Ok(Ok((rest, _))) => return Err(format!("rest: {}", rest)),
+        Ok(Err(e)) => return Err(e),
+        Err(p) => return Err(format!("panic: {}", p)),
+    };
+    let (ids, mismatch) = bind(&dom, tree);
+    Ok(Doc { dom, ids, mismatch, text: text.to_string() })
+}
+
 pub fn load_doc(text: &str, tree: &J) -> Result<Doc, String> {
     let dom = parse_merged(text)?;
     let (ids, mismatch) = bind(&dom, tree);
@@ -306,7 +318,7 @@ fn replay(args: &[String]) -> i32 {
     let stats_path = arg_value(args, "--stats");
     let sample: u64 = arg_value(args, "--sample").and_then(|s| s.parse().ok()).unwrap_or(50);
     let mut w = open_out(trace);
-    let mut docs: HashMap<i64, (Doc, J)> = HashMap::new();
+    let mut docs: HashMap<i64, (Doc, J, Option<Doc>)> = HashMap::new();
     let mut cases = 0u64;
     let mut evals = 0u64;
     let mut fast_ok = 0u64;
@@ -321,7 +333,10 @@ fn replay(args: &[String]) -> i32 {
                 let text = cps(&case["text"]);
                 match load_doc(&text, &case["tree"]) {
                     Ok(d) => {
-                        docs.insert(case["doc"].as_i64().unwrap_or(0), (d, case["tree"].clone()));
+                        // raw and merged views coincide when no text node is written with CDATA/references
+                        let plain = case["tree"]["nodes"].as_array().map(|a| a.iter().all(|n| n["raw"].as_array().map(|r| r.is_empty()).unwrap_or(true))).unwrap_or(false);
+                        let raw = if plain { load_doc_raw(&text, &case["tree"]).ok() } else { None };
+                        docs.insert(case["doc"].as_i64().unwrap_or(0), (d, case["tree"].clone(), raw));
                     }
                     Err(e) => {
                         bad_docs += 1;
@@ -334,8 +349,8 @@ fn replay(args: &[String]) -> i32 {
             "xp" => {
                 cases += 1;
                 let d = case["doc"].as_i64().unwrap_or(0);
-                let (doc, tree) = match docs.get(&d) {
-                    Some(x) => x,
+                let (doc, tree, rawdoc) = match docs.get(&d) {
+                    Some(x) => (&x.0, &x.1, &x.2),
                     None => return,
                 };
                 let binds = case.get("binds").cloned().unwrap_or(json!([]));
@@ -350,6 +365,15 @@ fn replay(args: &[String]) -> i32 {
                     }
                     obs.push(o);
                 }
+                // the canonical spelling on the raw view, where the two views coincide
+                let obs_raw = rawdoc.as_ref().map(|rd| {
+                    evals += 1;
+                    let o = eval_fresh(rd, &cps(&case["sp"][0]), &binds);
+                    if !same_value(&o, exp) || rd.mismatch.is_some() {
+                        all_ok = false;
+                    }
+                    o
+                });
                 *fams.entry(case["fam"].as_str().unwrap_or("").to_string()).or_insert(0) += 1;
                 let nt = match exp["t"].as_str() {
                     Some("nodes") => exp["v"].as_array().map(|a| !a.is_empty()).unwrap_or(false),
@@ -373,6 +397,10 @@ fn replay(args: &[String]) -> i32 {
                     }
                     if let Some(st) = case.get("styles") {
                         ev["styles"] = st.clone();
+                    }
+                    if let Some(o) = &obs_raw {
+                        ev["obs_raw"] = o.clone();
+                        ev["raw_mismatch"] = json!(rawdoc.as_ref().and_then(|r| r.mismatch.clone()).unwrap_or_default());
                     }
                     writeln!(w, "{}", ev).unwrap();
                     traced += 1;
